@@ -179,6 +179,27 @@ pub fn run(ctx: &Ctx) -> ! {
     let resps = responses();
     let cfgs = configs();
     let kinds = [ClientKind::Blocking, ClientKind::Async];
+    if ctx.extra.iter().any(|a| a == "--probe") {
+        for kind in kinds {
+            for nthreads in [1usize, 4, 16] {
+                let t0 = Instant::now();
+                let c0 = cpu_time();
+                std::thread::scope(|sc| {
+                    for _ in 0..nthreads {
+                        sc.spawn(|| {
+                            let rt = runtime();
+                            for _ in 0..20 {
+                                let (r, _, _, _, _) = exchange(kind, &rt, "http", "/ipp", &Config::default(), build_ipp(&reqs[1]), Script::ok(r1::encode(&resps[0].1)));
+                                assert!(r.is_ok());
+                            }
+                        });
+                    }
+                });
+                println!("{} x{} threads: {:?} wall per exchange per thread, {:?} cpu per exchange", kind.name(), nthreads, t0.elapsed() / 20, (cpu_time() - c0) / (20 * nthreads as u32));
+            }
+        }
+        std::process::exit(0);
+    }
 
     // ---------------- (1) request side
     let npay = tier.pick(3usize, 4usize);
@@ -205,9 +226,9 @@ pub fn run(ctx: &Ctx) -> ! {
         expect.data = pay.clone();
         let (result, ex, extra, port, _) = exchange(kind, rt, scheme, path, cfg, with_payload(m, &pay, t[2] == 3), Script::ok(ok_body.clone()));
         st.transitions += ex.as_ref().map(|e| e.app_bytes as u64).unwrap_or(0);
-        st.states.insert(idx);
+        st.states.insert(idx | 1 << 40);
         if t[2] > 0 || t[3] > 0 || t[4] > 0 {
-            st.nontrivial.insert(idx);
+            st.nontrivial.insert(idx | 1 << 40);
         }
         let verdict: Result<(), (String, String)> = (|| {
             let ex = ex.as_ref().ok_or_else(|| ("no-connection".to_string(), "the peer saw no connection".to_string()))?;
@@ -237,6 +258,7 @@ pub fn run(ctx: &Ctx) -> ! {
         s.merge(p.0);
     }
     rep.section("request-side", s);
+    eprintln!("  elapsed {:?}", rep.start.elapsed());
 
     // ---------------- (2) response side: framings x write plans x trailing data
     let mut jobs: Vec<(usize, usize, usize, Framing, Plan)> = vec![]; // (client, response, trailing, framing, plan)
@@ -278,8 +300,8 @@ pub fn run(ctx: &Ctx) -> ! {
         st.evaluations += 1;
         st.traces += 1;
         st.transitions += body.len() as u64;
-        st.states.insert(idx);
-        st.nontrivial.insert(idx);
+        st.states.insert(idx | 2 << 40);
+        st.nontrivial.insert(idx | 2 << 40);
         let script = Script { framing: f, plan, ..Script::ok(body) };
         let (result, _ex, _extra, _, _) = exchange(kind, rt, "http", "/ipp", &Config::default(), build_ipp(&req0), script);
         match result {
@@ -300,6 +322,7 @@ pub fn run(ctx: &Ctx) -> ! {
         s.merge(p.0);
     }
     rep.section("response-side", s);
+    eprintln!("  elapsed {:?}", rep.start.elapsed());
 
     // ---------------- (3) HTTP error statuses
     let mut s = Stats::new();
@@ -314,8 +337,8 @@ pub fn run(ctx: &Ctx) -> ! {
         st.evaluations += 1;
         st.traces += 1;
         st.transitions += 1;
-        st.states.insert(idx);
-        st.nontrivial.insert(idx);
+        st.states.insert(idx | 3 << 40);
+        st.nontrivial.insert(idx | 3 << 40);
         let script = Script { status, ..Script::ok(body) };
         let (result, _, _, _, _) = exchange(kind, rt, "http", "/ipp", &Config::default(), build_ipp(&req0), script);
         match result {
@@ -331,6 +354,7 @@ pub fn run(ctx: &Ctx) -> ! {
         s.merge(p.0);
     }
     rep.section("http-error-statuses", s);
+    eprintln!("  elapsed {:?}", rep.start.elapsed());
 
     // ---------------- (4) connection cut at every offset, under each framing, and inside the HTTP head
     let mut jobs: Vec<(usize, usize, Framing, Option<usize>, Option<usize>)> = vec![];
@@ -362,8 +386,8 @@ pub fn run(ctx: &Ctx) -> ! {
         st.evaluations += 1;
         st.traces += 1;
         st.transitions += 1;
-        st.states.insert(idx);
-        st.nontrivial.insert(idx);
+        st.states.insert(idx | 4 << 40);
+        st.nontrivial.insert(idx | 4 << 40);
         let script = Script { framing: f, cut_after: cut, cut_in_head: cut_head, ..Script::ok(body) };
         let (result, _, _, _, _) = exchange(kind, rt, "http", "/ipp", &Config::default(), build_ipp(&req0), script);
         match result {
@@ -383,39 +407,48 @@ pub fn run(ctx: &Ctx) -> ! {
         s.merge(p.0);
     }
     rep.section("connection-cuts", s);
+    eprintln!("  elapsed {:?}", rep.start.elapsed());
 
     // ---------------- (5) stalls and the request timeout
     let mut s = Stats::new();
     {
-        let rt = runtime();
         let body = r1::encode(&resps[0].1);
+        let mut stall_cases: Vec<(ClientKind, &'static str, Script, Option<u64>)> = vec![];
         for kind in kinds {
             for (where_, script) in [
                 ("before-status", Script { stall_before_status: Some(Duration::from_millis(1500)), ..Script::ok(body.clone()) }),
                 ("mid-attributes", Script { stall_mid: Some((body.len() / 2, Duration::from_millis(1500))), plan: Plan::OneWrite, ..Script::ok(body.clone()) }),
             ] {
                 for timeout in [Some(300u64), None] {
-                    let case = json!({"section": "stall", "client": kind.name(), "where": where_, "request_timeout_ms": timeout});
-                    s.evaluations += 1;
-                    s.traces += 1;
-                    s.transitions += 1;
-                    s.states.insert(fnv(case.to_string().as_bytes()));
-                    s.nontrivial.insert(fnv(case.to_string().as_bytes()));
-                    let cfg = Config { timeout_ms: timeout, ..Default::default() };
-                    let (result, _, _, _, took) = exchange(kind, &rt, "http", "/ipp", &cfg, build_ipp(&req0), script.clone());
-                    match (timeout, result) {
-                        (Some(_), Err(_)) if took < Duration::from_secs(5) => s.outcome("timeout-is-error"),
-                        (Some(_), Err(_)) => s.violate(format!("{}:timeout-too-late", kind.name()), format!("{}: error only after {:?}", case, took), case.clone()),
-                        (Some(_), Ok(_)) => s.violate(format!("{}:timeout-ignored", kind.name()), format!("{}: send() returned Ok after {:?} although the server stalled 1.5 s", case, took), case.clone()),
-                        (None, Ok(_)) => s.outcome("no-timeout-waits"),
-                        (None, Err(e)) => s.violate(format!("{}:spurious-timeout", kind.name()), format!("{}: no timeout configured but send() failed: {}", case, &e[..e.len().min(200)]), case.clone()),
-                    }
-                    s.sample(1, || case.clone());
+                    stall_cases.push((kind, where_, script.clone(), timeout));
                 }
             }
         }
+        for p in par_range(stall_cases.len(), stall_cases.len() as u64, 1, || (Stats::new(), runtime()), |acc, i| {
+            let (s, rt) = acc;
+            let (kind, where_, script, timeout) = stall_cases[i as usize].clone();
+            let case = json!({"section": "stall", "client": kind.name(), "where": where_, "request_timeout_ms": timeout});
+            s.evaluations += 1;
+            s.traces += 1;
+            s.transitions += 1;
+            s.states.insert(fnv(case.to_string().as_bytes()));
+            s.nontrivial.insert(fnv(case.to_string().as_bytes()));
+            let cfg = Config { timeout_ms: timeout, ..Default::default() };
+            let (result, _, _, _, took) = exchange(kind, rt, "http", "/ipp", &cfg, build_ipp(&req0), script.clone());
+            match (timeout, result) {
+                (Some(_), Err(_)) if took < Duration::from_secs(5) => s.outcome("timeout-is-error"),
+                (Some(_), Err(_)) => s.violate(format!("{}:timeout-too-late", kind.name()), format!("{}: error only after {:?}", case, took), case.clone()),
+                (Some(_), Ok(_)) => s.violate(format!("{}:timeout-ignored", kind.name()), format!("{}: send() returned Ok after {:?} although the server stalled 1.5 s", case, took), case.clone()),
+                (None, Ok(_)) => s.outcome("no-timeout-waits"),
+                (None, Err(e)) => s.violate(format!("{}:spurious-timeout", kind.name()), format!("{}: no timeout configured but send() failed: {}", case, &e[..e.len().min(200)]), case.clone()),
+            }
+            s.sample(1, || case.clone());
+        }) {
+            s.merge(p.0);
+        }
     }
     rep.section("stalls-and-timeouts", s);
+    eprintln!("  elapsed {:?}", rep.start.elapsed());
 
     // ---------------- (6) concurrency: N senders, every answer order
     let mut s = Stats::new();
@@ -424,7 +457,8 @@ pub fn run(ctx: &Ctx) -> ! {
         permutations(&mut (0..n).collect::<Vec<_>>(), 0, &mut orders);
         for mode in 0..3usize {
             for order in &orders {
-                let case = json!({"section": "concurrency", "senders": n, "mode": ["blocking threads", "async current-thread", "async multi-thread"][mode], "answer_order": order});
+                let mode_name = ["blocking threads", "async current-thread", "async multi-thread"][mode];
+                let case = json!({"section": "concurrency", "senders": n, "mode": mode_name, "answer_order": order});
                 s.evaluations += 1;
                 s.traces += 1;
                 s.transitions += n as u64;
@@ -443,6 +477,13 @@ pub fn run(ctx: &Ctx) -> ! {
     }
     rep.section("concurrent-senders", s);
     rep.finish()
+}
+
+fn cpu_time() -> Duration {
+    let s = std::fs::read_to_string("/proc/self/stat").unwrap_or_default();
+    let f: Vec<&str> = s.rsplit(')').next().unwrap_or("").split_whitespace().collect();
+    let ticks: u64 = f.get(11).and_then(|x| x.parse().ok()).unwrap_or(0) + f.get(12).and_then(|x| x.parse().ok()).unwrap_or(0);
+    Duration::from_millis(ticks * 10)
 }
 
 fn permutations(v: &mut Vec<usize>, k: usize, out: &mut Vec<Vec<usize>>) {
